@@ -39,7 +39,7 @@ Theorem next_field_tag num wt rest pf0 pw0 e :
 Proof.
   intros Hv Hw. unfold valid_number, MaxValidNumber in Hv. apply andb_true_iff in Hv. destruct Hv as [A B].
   apply Z.leb_le in A. apply Z.leb_le in B. change (2 ^ 29 - 1) with 536870911 in B.
-  unfold next_field. cbn [buf pf pw err]. cbn [Z.ltb Z.compare orb].
+  unfold next_field. rewrite not_has_len_z. cbn [buf pf pw err]. cbn [Z.ltb Z.compare orb].
   replace (Z.of_nat (length (spec_tag num wt ++ rest)) <? 0) with false by (symmetry; apply Z.ltb_ge; lia).
   cbn [orb Z.to_nat skipn].
   destruct (spec_tag num wt ++ rest) as [|y t] eqn:E.
@@ -57,7 +57,7 @@ Lemma next_field_advance (p rest : bytes) pf0 pw0 e :
   next_field (Z.of_nat (length p)) {| pf := pf0; pw := pw0; buf := p ++ rest; err := e |} =
   next_field 0 {| pf := pf0; pw := pw0; buf := rest; err := e |}.
 Proof.
-  unfold next_field. cbn [buf pf pw err].
+  unfold next_field. rewrite !not_has_len_z. cbn [buf pf pw err].
   replace (Z.of_nat (length p) <? 0) with false by (symmetry; apply Z.ltb_ge; lia).
   rewrite app_length.
   replace (Z.of_nat (length p + length rest) <? Z.of_nat (length p)) with false by (symmetry; apply Z.ltb_ge; lia).
